@@ -6,7 +6,7 @@ from ..runner import Case, Property
 
 class C19(Property):
     id = "C19"
-    lean_module = "RosuModel.Props.C19Lipschitz"   # imports Props/C19.lean; both files are in namespace Rosu.C19
+    lean_module = "RosuModel.Props.C19Curve"   # imports Props/C19Lipschitz.lean, Props/C19.lean (namespace Rosu.C19) and Props/C16Surplus.lean
     namespace = "Rosu.C19"
     design_ref = "5.19"
     level_text = (
@@ -28,6 +28,9 @@ class C19(Property):
         "length is AT LEAST its chord: nrm(path[i+1]-path[i]) <= len[i+1]-len[i]). It rests on idxOfDist_spec (on strictly increasing lengths std's probing sequence returns the number of "
         "lengths below d, hit or miss), interpolate_eq_polyAt, and the pure ordered-field lemma poly_lipschitz (Lemmas/PolyLipschitz.lean). position_lipschitz_real: the full statement with the "
         "model's own Pos::distance (sqrt = Real.sqrt) holds over the reals (position_lipschitz_full_statement = the old position_lipschitz_statement plus the three invariants it omitted). "
+        "Props/C19Curve.lean supplies the chord hypothesis from C16: natLens_chord (booked length >= chord in the natural lengths, equal for every segment but the first, given optimized_len >= 0 = "
+        "C16.calculatePath_optLen_nonneg) and natural_curve_lipschitz_real: over the reals position_at is 1-Lipschitz on EVERY curve Curve::new builds without a requested length (any mode, control "
+        "points, fuel, buffers) whose lengths strictly increase by more than EPSILON. "
         "Model tied to the code bit-for-bit "
         "(positions, distances, indices, also for NaN / unsorted lengths).")
     technique = "Lean 4 proof (generic arithmetic, structural) + bit-exact differential correspondence + independent oracle"
@@ -39,10 +42,12 @@ class C19(Property):
                          "position_at_zero_first", "position_at_one_last", "posLaws_rat",
                          # Props/C19Lipschitz.lean
                          "cmpLen_gt_iff", "bsLoop_spec", "idxOfDist_spec", "interpolate_eq_polyAt", "clamp01_lipschitz",
-                         "position_lipschitz", "position_lipschitz_ordered", "normLaws_euclid", "position_lipschitz_real"]
+                         "position_lipschitz", "position_lipschitz_ordered", "normLaws_euclid", "position_lipschitz_real",
+                         # Props/C19Curve.lean
+                         "natLens_chord", "natural_curve_lipschitz_real"]
     partial_theorems = {
         "position_at_zero_first / position_at_one_last / position_at_vertex": "proved in exact arithmetic only (PosLaws: lt irreflexive/asymmetric, 0*x=0, 1*x=x, (b-a)/(b-a)=1 for a<b, x*1=x, a+(b-a)=b; instantiated on Rat) and for strictly increasing lengths with consecutive differences above EPSILON; with zero-length segments the position is the start of a coincident run (tested), in IEEE the equalities hold within 1e-6*scale (tested)",
-        "position_lipschitz": "proved in exact arithmetic only (ExactArith + NormLaws + the curve invariants listed in level_text; instantiated on Rat with the L1 norm on a concrete 3-vertex curve and on the reals with the Euclidean norm = the model's Pos::distance). NOT proved for IEEE floats (tested by the oracle with float slack 4e-6*scale + 1e-5). The hypotheses are necessary: (a) without NonDegenerate the bound is false in exact arithmetic whenever EPSILON > 0, because interpolate_vertices snaps a segment of booked length <= EPSILON to its start (a jump of up to EPSILON) - so the old position_lipschitz_statement, kept in Props/C19.lean, is not provable as written; (b) ChordBound is an inequality: the first segment of an osu!-mode Catmull path books optimized_len on top of its chord (F12) and satisfies it; it fails only when the surplus is negative by IEEE rounding (~ -5e-7 observed) and for the NaN end point of F11; that Curve::new establishes ChordBound/StrictSorted for every input (needs C16 surplus_nonneg and no zero-length segment) is not proved",
+        "position_lipschitz": "proved in exact arithmetic only (ExactArith + NormLaws + the curve invariants listed in level_text; instantiated on Rat with the L1 norm on a concrete 3-vertex curve and on the reals with the Euclidean norm = the model's Pos::distance). NOT proved for IEEE floats (tested by the oracle with float slack 4e-6*scale + 1e-5). The hypotheses are necessary: (a) without NonDegenerate the bound is false in exact arithmetic whenever EPSILON > 0, because interpolate_vertices snaps a segment of booked length <= EPSILON to its start (a jump of up to EPSILON) - so the old position_lipschitz_statement, kept in Props/C19.lean, is not provable as written; (b) ChordBound is an inequality: the first segment of an osu!-mode Catmull path books optimized_len on top of its chord (F12) and satisfies it; it fails only when the surplus is negative by IEEE rounding (~ -5e-7 observed) and for the NaN end point of F11; that Curve::new establishes ChordBound is proved for curves without a requested length (natLens_chord + C16 surplus_nonneg; natural_curve_lipschitz_real) and NOT for the re-projected last segment of a length-adjusted curve; StrictSorted/NonDegenerate (no zero-length or sub-EPSILON segment) stay hypotheses - they genuinely fail for duplicate vertices, where the code snaps to the start of the coincident run",
     }
     trusted_base = [
         "Lean 4.33.0 kernel",
